@@ -168,6 +168,17 @@ pub fn renet_values(tier: Tier) -> Vec<Packet> {
             }
         }
     }
+    // message-count classes (the count field of small packets): 255 / 256 / 257 / 300 / 600 tiny messages, the most a
+    // sender can put into one packet
+    for &count in &[255usize, 256, 257, 300, 600] {
+        for channel_id in [0u8, 255] {
+            if count <= 300 {
+                out.push(Packet::SmallReliable { sequence: 5, channel_id, messages: (0..count).map(|i| (i as u64, msg(0, i))).collect() });
+                out.push(Packet::SmallUnreliable { sequence: 5, channel_id, messages: (0..count).map(|i| msg(1, i)).collect() });
+            }
+            out.push(Packet::SmallUnreliable { sequence: 1 << 30, channel_id, messages: (0..count).map(|i| msg(0, i)).collect() });
+        }
+    }
     let seqs: Vec<u64> = tier.pick(vec![0, 64, 16_384, (1 << 62) - 1], CLASSES.to_vec());
     for &sequence in &seqs {
         for channel_id in [0u8, 1, 255] {
